@@ -1673,7 +1673,7 @@ package quic
 //@   ensures [sample-is-16-bytes-4-after-the-packet-number-start] implies(len(data) >= hl + 20, called("(quic.headerDecryptor).DecryptHeader") == 1 && alias(callarg("(quic.headerDecryptor).DecryptHeader", 0, 1), data, hl + 4) && len(callarg("(quic.headerDecryptor).DecryptHeader", 0, 1)) == 16 && alias(callarg("(quic.headerDecryptor).DecryptHeader", 0, 3), data, hl) && len(callarg("(quic.headerDecryptor).DecryptHeader", 0, 3)) == 4)
 //@   ensures [payload-bytes-restored] implies(len(data) >= hl + 20 && result4 == nil, forall(k, hl + int(result2), hl + 4, data[k] == old(data[k])))
 //@   ensures [beyond-the-packet-number-field-untouched] forall(k, hl + 4, len(data), data[k] == old(data[k]))
-//@   unclaimed safe:slice:5 on the ErrInvalidReservedBits path the packet-number length is valid only because that particular error is returned together with a parsed header; the identity of package-level error variables is not modelled
+//@   ensures [header-length-valid-whenever-unpacking-continues] implies(result4 == nil || result4 == wire.ErrInvalidReservedBits, result0 == hl + int(result2) && 1 <= result2 && result2 <= 4 && result0 <= len(data))
 //@   modifies data[:]
 //@ func unpackLongHeader
 //@   props C05
@@ -1747,9 +1747,6 @@ package quic
 //@   ensures [packet-number-decoded-by-the-opener] implies(opened, called("(handshake.ShortHeaderOpener).DecodePacketNumber") == 1 && callarg("(handshake.ShortHeaderOpener).Open", 0, 4) == lastresult("(handshake.ShortHeaderOpener).DecodePacketNumber"))
 //@   ensures [authentication-failure-returns-nothing] implies(opened && lastresult("(handshake.ShortHeaderOpener).Open", 1) != nil, len(result3) == 0 && result4 != nil)
 //@   ensures [nothing-without-the-aead] implies(result4 == nil, opened && lastresult("(handshake.ShortHeaderOpener).Open", 1) == nil)
-//@   unclaimed safe:slice:0 on the ErrInvalidReservedBits path the header length is valid only because that particular error is returned together with a parsed header; the identity of package-level error variables is not modelled
-//@   unclaimed safe:slice:1 same
-//@   unclaimed safe:slice:2 same
 //@   modifies data[:]
 //@ func (u *packetUnpacker) UnpackShortHeader
 //@   props C05
